@@ -18,7 +18,7 @@ func (c *Cluster) armCrashes(inc *Inc, h int64) {
 	}
 	for i := range p.Crashes {
 		cs := &p.Crashes[i]
-		if cs.armed || cs.Victim != inc.Idx || cs.AtHeight != h {
+		if cs.armed || cs.OnSend != "" || cs.Victim != inc.Idx || cs.AtHeight != h {
 			continue
 		}
 		cs.armed = true
